@@ -23,7 +23,7 @@ Not decided: the semantic equality itself - arithmetic results, coercions, addre
 """
 import re
 
-from .. import mir, e2_grammar as e2, e3_trav as e3, e9_attrib as e9
+from .. import mir, roles, e2_grammar as e2, e3_trav as e3, e9_attrib as e9
 from ..common import CallGraph, table, call_matches, is_derive, site_in_derive, with_closures, is_trait_call
 from ..engine import Result, ok, finding, assumption, where
 from ..facts import BrokenCheck
@@ -404,7 +404,9 @@ def attrib(F, res):
                 else:
                     res.add([finding("ATTRIB", key, w, "operand %s is fed from self.%s instead of self.%s: operands are swapped or mixed" % (tf, sorted(srcs), want))])
     # compile_validity -> ttl / validity_interval_start
-    cv = F.fn("tx3_cardano::compile::compile_validity")
+    tbp = roles.builder_of(F, "tx3_cardano", "::TransactionBody")
+    cvp = roles.feeder_of(F, tbp, "::TransactionBody", "ttl")
+    cv = F.fns[cvp]
     duv = mir.DefUse(cv)
     tup = [(bi, s) for bi, si, s in mir.stmts(cv) if s["rv"]["k"] == "agg" and "tuple" in s["rv"] and len(s["rv"]["ops"]) == 2 and bi in mir.live_blocks(cv)]
     good = False
@@ -424,7 +426,7 @@ def attrib(F, res):
         res.add([ok("ATTRIB", key, where(cv), "(validity.since, validity.until)")])
     else:
         res.add([finding("ATTRIB", key, where(cv), "compile_validity does not return (since, until) in that order")])
-    tb = F.fn("tx3_cardano::compile::compile_tx_body")
+    tb = F.fns[tbp]
     dub = mir.DefUse(tb)
     agg = [(bi, s) for bi, si, s in mir.stmts(tb) if s["rv"]["k"] == "agg" and s["rv"].get("adt", "").endswith("TransactionBody")]
     rv = agg[0][1]["rv"]
@@ -432,7 +434,7 @@ def attrib(F, res):
         n += 1
         o = mir.provenance(tb, dub, rv["ops"][rv["fields"].index(tf)])
         key = "compile_tx_body -> TransactionBody.%s" % tf
-        okk = any(x.kind == "call" and x.callee.endswith("compile_validity") and idx in x.proj for x in o)
+        okk = any(x.kind == "call" and x.callee == cvp and idx in x.proj for x in o)
         if okk:
             res.add([ok("ATTRIB", key, where(tb), "component %s of compile_validity's result" % idx)])
         else:
@@ -588,13 +590,32 @@ def fielduse(F, res):
 FILTERS = ("filter", "filter_map", "take", "skip", "take_while", "skip_while", "step_by", "dedup", "dedup_by_key", "find", "nth", "last", "first")
 
 
+def _reads_adhoc(F, f):
+    """f selects chain-specific ad-hoc directives (Tx.adhoc) by name: outside the core fragment the property speaks about"""
+    import json
+    return any('["f", "adhoc", "tx3_tir::model::v1beta0::Tx"' in json.dumps(b["blocks"]) for b in with_closures(F, f))
+
+
 def nofilter(F, res):
     exc = {r["key"]: r["reason"] for r in rows("filters")}
-    targets = ["compile_inputs", "compile_outputs", "compile_reference_inputs", "compile_collateral", "compile_required_signers",
-               "compile_auxiliary_data", "compile_mint_block", "compile_tx_body"]
+    # the functions that assemble the transaction body (found by role: the builder of TransactionBody, the crate functions
+    # it calls, and the feeder of Tx.auxiliary_data); keys keep the historical names of the roles
+    tbp = roles.builder_of(F, "tx3_cardano", "::TransactionBody")
+    names = {tbp: "compile_tx_body"}
+    for b in with_closures(F, F.fns[tbp]):
+        for bi, t in mir.calls(b):
+            c = t.get("callee") or ""
+            if c in F.fns and F.fns[c]["crate"] == "tx3_cardano" and c.startswith(tbp.rsplit("::", 1)[0] + "::") and not _reads_adhoc(F, F.fns[c]):
+                names.setdefault(c, c.split("::")[-1])
+    for fld, hist in (("inputs", "compile_inputs"), ("outputs", "compile_outputs"), ("mint", "compile_mint_block"), ("required_signers", "compile_required_signers")):
+        names[roles.feeder_of(F, tbp, "::TransactionBody", fld)] = hist
+    txp = roles.builder_of(F, "tx3_cardano", "::Tx")
+    names[roles.feeder_of(F, txp, "::Tx", "auxiliary_data")] = "compile_auxiliary_data"
+    res.count("body-assembling functions", len(names))
+    res.floor("body-assembling functions", len(names), 8)
     n = 0
-    for name in targets:
-        f = F.fn("tx3_cardano::compile::" + name)
+    for fp, name in sorted(names.items()):
+        f = F.fns[fp]
         for b in with_closures(F, f):
             du = None
             for bi, t in mir.calls(b):
@@ -611,7 +632,7 @@ def nofilter(F, res):
                 if not (is_filter or drops_err):
                     continue
                 n += 1
-                key = "%s|%s" % (b["path"].replace("tx3_cardano::compile::", ""), last + (" over Result" if drops_err else ""))
+                key = "%s|%s" % (name, last + (" over Result" if drops_err else ""))
                 w = where(b, t["line"])
                 if key in exc:
                     res.add([ok("NOFILTER", key, w, "tabled: " + exc[key])])
@@ -623,7 +644,7 @@ def nofilter(F, res):
 
 
 def order(F, res):
-    f = F.fn("tx3_cardano::compile::compile_outputs")
+    f = F.fns[roles.feeder_of(F, roles.builder_of(F, "tx3_cardano", "::TransactionBody"), "::TransactionBody", "outputs")]
     bad = []
     for b in with_closures(F, f):
         for bi, t in mir.calls(b):
